@@ -11,3 +11,4 @@ import TinsModel.Props.C18
 #print axioms Tins.Props.C18.libtins_footprints_disjoint
 #print axioms Tins.Props.C18.libtins_threads_independent
 #print axioms Tins.Props.C18.crc_table_is_ieee
+#print axioms Tins.Props.C18.crc32_reads_table_correctly
